@@ -138,6 +138,9 @@ def handleLuaApi (line : String) : String :=
         -- Execute: cpu.PC = loadAddress; then per iteration arrange, RunExt(cpu.PC, false), assert
         let m0 : AM := { regs := { regs0 with pc := BitVec.ofNat 16 la }, cycles := 0,
                          mem := { inner := { sb := sb0, ms := ms0, cyc := 0, out := #[] }, log := [] } }
+        -- tokens `@op` of the first section: executed once at chunk level (while the script is loaded by DoFile)
+        let p0 := (words p1).filterMap fun w => if w.startsWith "@" then some (w.drop 1).toString else none
+        let p1 := " ".intercalate ((words p1).filter fun w => !w.startsWith "@")
         let rec loop : Nat → AM → Option AM
           | 0, st => some st
           | n + 1, st => do
@@ -146,7 +149,7 @@ def handleLuaApi (line : String) : String :=
             if kindOf stop != "halt" then none
             let st ← runOpsApi bus la code.length m' (words p2)
             loop n st
-        match loop iters m0 with
+        match (runOpsApi bus la code.length m0 p0).bind (loop iters) with
         | none => "agree | specok | luaapi.model-stop"
         | some st =>
           let ml := st.mem.inner.out.toList
@@ -168,6 +171,28 @@ def handleLuaApi (line : String) : String :=
               (if longCall then s!",C05:api-long:{tag}@spec={spec}:origin={origin}" else "")
           s!"{d} | {v} | luaapi.{spec}.i{iters}.t{tr}"
     | _ => "bad"
+  | _ => "bad"
+
+/-- `trapglobals M LOADAT PAD => ok | load_address prog_len pc cycles byte`: what the trap function of run/profile
+    sees for the program `PAD × NOP; LDA #7; STA $7F00; BRK` loaded at LOADAT: the header address, the payload length
+    (PAD + 6), a program counter inside the storing instruction, the cycles of the instructions completed so far
+    (2·PAD + 2) and the stored byte -/
+def handleTrapGlobals (line : String) : String :=
+  match line.splitOn " => " with
+  | [req, res] =>
+    match words req, res.splitOn " | " with
+    | [_, _, las, pads], [gres, outS] =>
+      match parseHex las, pads.toNat? with
+      | some la, some pad =>
+        let toks := words outS
+        let want := [toString la, toString (pad + 6)]
+        let pcOk := match (toks.getD 2 "").toNat? with | some pc => la + pad + 2 ≤ pc && pc ≤ la + pad + 5 | none => false
+        let ok := gres.trimAscii.toString == "ok" && toks.take 2 == want && pcOk &&
+          toks.getD 3 "" == toString (2 * pad + 2) && toks.getD 4 "" == "7" && toks.length == 5
+        if ok then "agree | specok | trapglobals"
+        else s!"DIFF api:trapglobals | VIOL C12:trap-globals:want={want}:cycles={2 * pad + 2}:go={"_".intercalate toks}:{gres.trimAscii.toString} | trapglobals"
+      | _, _ => "bad"
+    | _, _ => "bad"
   | _ => "bad"
 
 end Driver
